@@ -78,6 +78,7 @@ type c11HTTPCase struct {
 	Inside bool     `json:"inside_by_oracle"`
 	Status int      `json:"status"`
 	Note   string   `json:"note,omitempty"`
+	Fwd    string   `json:"proxy_headers_claimed,omitempty"`
 }
 
 func TestVerifC11Http(t *testing.T) {
@@ -147,6 +148,7 @@ func TestVerifC11Http(t *testing.T) {
 			pos  string
 			v4   uint32
 			v6   bool
+			hdr  map[string]string
 		}
 		var peers []peer
 		for _, b := range blocks {
@@ -162,12 +164,46 @@ func TestVerifC11Http(t *testing.T) {
 				host = 0
 			}
 			for pos, u := range map[string]uint32{"network": n, "broadcast": n | host, "below": n - 1, "above": (n | host) + 1, "far": n ^ 0x80000000} {
-				peers = append(peers, peer{c11str(u) + ":40000", pos, u, false})
+				peers = append(peers, peer{c11str(u) + ":40000", pos, u, false, nil})
 			}
 		}
-		peers = append(peers, peer{c11str(rng.Uint32()) + ":40000", "random", 0, false})
+		peers = append(peers, peer{c11str(rng.Uint32()) + ":40000", "random", 0, false, nil})
 		peers[len(peers)-1].v4 = c11u32(strings.Split(peers[len(peers)-1].addr, ":")[0])
-		peers = append(peers, peer{"[2001:db8::10]:40000", "ipv6", 0, true})
+		peers = append(peers, peer{"[2001:db8::10]:40000", "ipv6", 0, true, nil})
+		// the decision is about the TCP peer: proxy-style headers naming another address must change nothing,
+		// whichever peer sends them (loopback included) and in either direction
+		insideAddr, outsideAddr := "", ""
+		for _, p := range peers {
+			if p.v6 {
+				continue
+			}
+			if c11inside(blocks, p.v4) && insideAddr == "" {
+				insideAddr = strings.Split(p.addr, ":")[0]
+			}
+			if !c11inside(blocks, p.v4) && outsideAddr == "" {
+				outsideAddr = strings.Split(p.addr, ":")[0]
+			}
+		}
+		fwd := func(a string) map[string]string {
+			return map[string]string{"X-Forwarded-For": a, "X-Real-Ip": a, "X-Real-IP": a, "Forwarded": "for=" + a, "X-Client-Ip": a, "True-Client-Ip": a}
+		}
+		if insideAddr != "" {
+			for _, tcp := range []string{"127.0.0.1", "127.0.0.2", "[::1]", outsideAddr} {
+				if tcp == "" {
+					continue
+				}
+				pp := peer{addr: tcp + ":40000", pos: "forwarded-claims-inside", hdr: fwd(insideAddr)}
+				if strings.HasPrefix(tcp, "[") {
+					pp.v6 = true
+				} else {
+					pp.v4 = c11u32(tcp)
+				}
+				peers = append(peers, pp)
+			}
+		}
+		if insideAddr != "" && outsideAddr != "" {
+			peers = append(peers, peer{addr: insideAddr + ":40000", pos: "forwarded-claims-outside", v4: c11u32(insideAddr), hdr: fwd(outsideAddr)})
+		}
 		for _, p := range peers {
 			inside := !p.v6 && c11inside(blocks, p.v4)
 			routes := []struct {
@@ -185,8 +221,25 @@ func TestVerifC11Http(t *testing.T) {
 				q := rt.req
 				q.TLS = cs
 				q.RemoteAddr = p.addr
+				if p.hdr != nil {
+					q.Header = map[string]string{}
+					for k, v := range rt.req.Header {
+						q.Header[k] = v
+					}
+					for k, v := range p.hdr {
+						q.Header[k] = v
+					}
+				}
 				resp := env.Do(q.Build())
 				c := c11HTTPCase{Blocks: blocks, Peer: p.addr, Route: rt.name, Inside: inside, Status: resp.Code}
+				if p.hdr != nil {
+					c.Fwd = p.hdr["X-Forwarded-For"]
+					if inside && rt.takesIP {
+						rep.Count("forwarded_headers_inside_peer", 1)
+					} else if rt.takesIP {
+						rep.Count("forwarded_headers_outside_peer", 1)
+					}
+				}
 				adm := resp.Code == 200
 				rep.Eval(fmt.Sprintf("%s|%s|inside=%v|admitted=%v", rt.name, p.pos, inside, adm))
 				if resp.Panic != "" {
@@ -281,4 +334,6 @@ func TestVerifC11Http(t *testing.T) {
 	rep.Floor("ok_refresh_admitted_false", 10)
 	rep.Floor("refresh_same_identity_and_blocks", 10)
 	rep.Floor("corrupt_not_admitted", 100)
+	rep.Floor("forwarded_headers_outside_peer", 10)
+	rep.Floor("forwarded_headers_inside_peer", 5)
 }
